@@ -23,7 +23,13 @@ class BaseParser(ABC):
         pass
 
     def find_file_locations(self) -> List[Path]:
-        return list(Path(self.parent_directory).rglob(self.file_type.value))
+        # Symlinks are skipped, as in `files_for_directory`: a manifest reached
+        # through a link may live outside the target directory
+        return [
+            path
+            for path in Path(self.parent_directory).rglob(self.file_type.value)
+            if not path.is_symlink()
+        ]
 
     def parse(self) -> list[PackageStore]:
         """
